@@ -14,6 +14,11 @@ os.makedirs("/tmp/seedrun", exist_ok=True)
 subprocess.run(f"git -C /repo worktree remove --force {wt} 2>/dev/null; git -C /repo worktree add -q --detach {wt} HEAD", shell=True, check=True)
 try:
     subprocess.run(f"git -C {wt} apply {ROOT}/seeded/{sid}/patch.diff", shell=True, check=True)
+    # start from the dependency artefacts already built for the unchanged tree (only the crates of the
+    # repository itself and the harness are rebuilt for the scratch copy)
+    for src, dst in ((f"{ROOT}/.cache/harness-target", f"{wt}/target-harness"), (f"{ROOT}/.cache/repo-target", f"{wt}/target-bin")):
+        if os.path.isdir(src) and not os.path.exists(dst):
+            subprocess.run(["cp", "-a", "--reflink=auto", src, dst])
     env = dict(os.environ, TSS_REPO=wt, TSS_EVIDENCE=f"{wt}/evidence", TSS_REPLAYS=f"{wt}/replays")
     os.makedirs(f"{wt}/evidence", exist_ok=True); os.makedirs(f"{wt}/replays", exist_ok=True)
     res = {}
